@@ -500,7 +500,14 @@ func runProperty(prop string, tier string, seed int, only string) (*runResult, e
 			for k := range c.trusted {
 				res.trusted[k] = true
 			}
+			bindErr := ""
+			for _, u := range c.unsup {
+				if strings.HasPrefix(u, "contract ") && bindErr == "" {
+					bindErr = u
+				}
+			}
 			for _, o := range c.obls {
+				o.BindErr = bindErr
 				if inst != nil {
 					// Cnn.func.<label>[@where] -> Cnn.func.<label>.<Kind.slot>[@where]
 					bn, at := o.Name, ""
